@@ -52,12 +52,82 @@ ConvOk(s, d, vj, rj) ==
 
 Min2(a, b) == IF a <= b THEN a ELSE b
 
-\* all three API routes returned the formula's value (the harness encodes canonically, so the second and
-\* third route are compared with the first as encodings)
+\* the formats whose Rust type has a checked constructor `new` (the custom-width types I24 / U24 / I48 / U48)
+Checked == {"i24", "u24", "i48", "u48"}
+\* "every result is a valid in-range value of the target format", by the target type's own validity predicate:
+\* nw is what <target type>::new(result.inner()) returned ({"k":"na"} for the primitive targets, which have none)
+NewOk(d, rj, nw) ==
+  IF d \in Checked THEN nw.k = "some" /\ nw.v = rj
+                   ELSE nw.k = "na"
+
+\* every API route returned the formula's value: Sample::to_sample, Sample::from_sample, conv::<src>::to_<dst>,
+\* FromSample::from_sample_, ToSample::to_sample_ (the harness encodes canonically, so the other routes are
+\* compared with the first as encodings)
+NRoutes == 5
+AllRoutes(s, d, vj, rs) ==
+  /\ Len(rs) = NRoutes
+  /\ ConvOk(s, d, vj, rs[1])
+  /\ \A k \in 2..NRoutes : rs[k] = rs[1]
 OkConv(e) ==
-  /\ e.r.k = "val" /\ Len(e.r.v) = 3
-  /\ ConvOk(e.a.src, e.a.dst, e.a.v, e.r.v[1])
-  /\ e.r.v[2] = e.r.v[1] /\ e.r.v[3] = e.r.v[1]
+  /\ e.r.k = "val"
+  /\ AllRoutes(e.a.src, e.a.dst, e.a.v, e.r.v)
+  /\ NewOk(e.a.dst, e.r.v[1], e.o.nw)
+
+\* to_signed_sample / to_float_sample: a conversion into the format d of the Rust result type (logged), which
+\* is a signed resp. a float format; identity when the format is its own companion
+ViaDomain(s, vj) ==
+  /\ s \in Formats /\ WfSample(s, vj)
+  /\ (~IsFloat(s) => InRange(s, SFromJson(vj)))
+OkVia(e) ==
+  LET s == e.a.src  d == e.o.d IN
+  /\ e.r.k = "val" /\ d \in Formats
+  /\ (e.a.to = "signed" => IsSigned(d)) /\ (e.a.to = "float" => IsFloat(d))
+  /\ (IsFloat(s) => IsFloat(d))
+  /\ ConvOk(s, d, e.a.v, e.r.v)
+  /\ NewOk(d, e.r.v, e.o.nw)
+
+\* add_amp / mul_amp: the conversion into the companion format, the native operation there, the conversion back
+\* (SampleFormats!AddAmp, MulAmp); judged where the sum stays in range resp. the product inside [-1, 1)
+AmpDomain(e) ==
+  LET s == e.a.src IN
+  /\ s \in IntFormats /\ IsSJson(e.a.v) /\ InRange(s, SFromJson(e.a.v))
+  /\ CASE e.a.op = "add" -> /\ IsSJson(e.a.g) /\ InRange(SignedOf(s), SFromJson(e.a.g))
+                            /\ AddAmpDefined(s, SFromJson(e.a.v), SFromJson(e.a.g))
+       [] e.a.op = "mul" -> /\ WfFloat(FloatOf(s), e.a.g) /\ FIsFinite(FmtOf(FloatOf(s)), e.a.g)
+                            /\ MulAmpDefined(s, SFromJson(e.a.v), e.a.g)
+       [] OTHER -> FALSE
+OkAmp(e) ==
+  LET s == e.a.src  v == SFromJson(e.a.v) IN
+  /\ e.r.k = "val" /\ IsSJson(e.r.v)
+  /\ e.o.g = (IF e.a.op = "add" THEN SignedOf(s) ELSE FloatOf(s))       \* the format the gain was passed in
+  /\ SFromJson(e.r.v) = (IF e.a.op = "add" THEN AddAmp(s, v, SFromJson(e.a.g)) ELSE MulAmp(s, v, e.a.g))
+  /\ InRange(s, SFromJson(e.r.v))
+  /\ NewOk(s, e.r.v, e.o.nw)
+
+\* the associated constants of `Sample`: EQUILIBRIUM is the format's equilibrium (0 for the signed formats,
+\* 2^(bits-1) for the unsigned ones, +0.0 for the floats), IDENTITY is 1.0 in a float format; the published
+\* extremes of the custom-width formats are the formats' extremes
+IsEquil(f, j) == WfSample(f, j) /\ SampleFromJson(f, j) = Equil(f)
+OkSConst(e) ==
+  LET f == e.a.fmt  r == e.r.v IN
+  /\ e.r.k = "val"
+  /\ IsEquil(f, r.eq)
+  /\ r.idf \in FloatFormats /\ WfFloat(r.idf, r.id) /\ r.id = Rne(FmtOf(r.idf), DFromInt(1))
+  /\ IF f \in Checked
+       THEN /\ Len(r.lim) = 2 /\ IsSJson(r.lim[1]) /\ IsSJson(r.lim[2])
+            /\ SFromJson(r.lim[1]) = MinV(f) /\ SFromJson(r.lim[2]) = MaxV(f)
+       ELSE Len(r.lim) = 0
+
+\* "equilibrium maps to equilibrium", in terms of the library's own constants: both EQUILIBRIUM constants are the
+\* formats' equilibria and every route takes the one to the other
+OkEqConv(e) ==
+  LET s == e.a.src  d == e.a.dst  r == e.r.v IN
+  /\ e.r.k = "val"
+  /\ IsEquil(s, r.se)
+  /\ IsEquil(d, r.de)
+  /\ AllRoutes(s, d, r.se, r.c)
+  /\ r.c[1] = r.de
+  /\ NewOk(d, r.c[1], e.o.nw)
 
 \* two steps src -> mid -> dst by one route: each step is the formula; and where the property
 \* promises it, the composition equals the direct conversion
@@ -118,13 +188,17 @@ OkTyOps(e) == LET t == e.a.ty  x == SToInt(SFromJson(e.a.a)) IN
        /\ (y = PanicN \/ InN(TBits(t), TSigned(t), y))
 
 ---------------------------------------------------------------------------
-Known == {"reset", "conv", "conv2", "ty_const", "ty_new", "ty_from", "ty_widen", "ty_cmp", "ty_op", "ty_ops"}
+Known == {"reset", "conv", "conv2", "via", "amp", "sconst", "eqconv", "ty_const", "ty_new", "ty_from", "ty_widen", "ty_cmp", "ty_op", "ty_ops"}
 
 \* is the event inside the domain the properties quantify over?  (anything else is reported, not judged)
 Judged(e) ==
   CASE e.ev = "reset"    -> TRUE
     [] e.ev = "conv"     -> InDomain(e.a.src, e.a.dst, e.a.v)
     [] e.ev = "conv2"    -> InDomain(e.a.src, e.a.mid, e.a.v) /\ e.a.dst \in Formats /\ e.a.dst # e.a.mid
+    [] e.ev = "via"      -> e.a.to \in {"signed", "float"} /\ ViaDomain(e.a.src, e.a.v)
+    [] e.ev = "amp"      -> AmpDomain(e)
+    [] e.ev = "sconst"   -> e.a.fmt \in Formats
+    [] e.ev = "eqconv"   -> e.a.src \in Formats /\ e.a.dst \in Formats /\ e.a.src # e.a.dst
     [] e.ev = "ty_const" -> e.a.ty \in Types
     [] e.ev = "ty_new"   -> e.a.ty \in Types /\ IsSJson(e.a.v) /\ TRepIn(e.a.ty, SFromJson(e.a.v))
     [] e.ev = "ty_from"  -> e.a.ty \in Types /\ IsSJson(e.a.v) /\ TRepIn(e.a.ty, SFromJson(e.a.v))
@@ -145,6 +219,10 @@ Accept(e) ==
   CASE e.ev = "reset"    -> e.r.k = "unit"
     [] e.ev = "conv"     -> OkConv(e)
     [] e.ev = "conv2"    -> OkConv2(e)
+    [] e.ev = "via"      -> OkVia(e)
+    [] e.ev = "amp"      -> OkAmp(e)
+    [] e.ev = "sconst"   -> OkSConst(e)
+    [] e.ev = "eqconv"   -> OkEqConv(e)
     [] e.ev = "ty_const" -> OkTyConst(e)
     [] e.ev = "ty_new"   -> OkTyNew(e)
     [] e.ev = "ty_from"  -> OkTyFrom(e)
